@@ -348,6 +348,10 @@ def _roll_replay_sessions(chunk):
 
 
 def roll_s2c_sessions(ctx, hists):
+    seen = ctx.extra.setdefault('_session_steps_seen', set())
+    for h in hists:
+        for st in h['hist']:
+            seen.add(('load', bool(st['keep']), min(st['d'], 2) if st['call']['data']['cols'] else -1, bool(st['call']['data']['cols'])) if st['act'] == 'load' else ('trunc', bool(st['head'])))
     items = list(enumerate(hists))
     res = pmap(_roll_replay_sessions, items, chunk=25)
     for k, nload, verdict in res:
@@ -495,7 +499,7 @@ def run_curve(ctx, q):
     if r.generated != r.distinct or r.distinct % 2:
         raise Machinery('MC_Curve: not every case was evaluated (%d generated, %d distinct)' % (r.generated, r.distinct))
     pts = ctx.generate('MC_Curve', 'MC_Curve_gen_pt.cfg' if q else 'MC_Curve_gen_pt_wide.cfg')
-    curve_s2c(ctx, pts, limit=8000 if q else None)
+    curve_s2c(ctx, pts, limit=6000 if q else None)
     curve_s2c(ctx, ctx.generate('MC_Curve', 'MC_Curve_gen_forms.cfg' if q else 'MC_Curve_gen_forms_wide.cfg'), limit=2500 if q else None)
     curve_c2s(ctx, 2500 if q else 40000)
 
@@ -511,17 +515,26 @@ def _simulate(ctx, module, cfg, n, depth, seed):
 
 
 def run_roll(ctx, q):
-    ctx.mc('MC_RollCall', 'MC_RollCall_quick.cfg', coverage=False)
+    r = ctx.mc('MC_RollCall', 'MC_RollCall_quick.cfg' if q else 'MC_RollCall_thorough.cfg', coverage=False)
+    if r.generated != r.distinct or r.distinct % 2:
+        raise Machinery('MC_RollCall: not every case was evaluated (%d generated, %d distinct)' % (r.generated, r.distinct))
     r = ctx.mc('MC_Roll', 'MC_Roll_quick.cfg' if q else 'MC_Roll_thorough.cfg', coverage=False)
+    if r.generated < 3 * r.distinct:
+        raise Machinery('MC_Roll: suspiciously few transitions (%d generated, %d distinct)' % (r.generated, r.distinct))
     # the reading of today's code (a contract whose data ends ON the cutoff counts as live) breaks the session law
     ctx.mc('MC_Roll', 'MC_Roll_today.cfg', must_fail='SavedIsFresh', coverage=False)
-    roll_s2c_calls(ctx, ctx.generate('MC_RollCall', 'MC_RollCall_gen.cfg'))
+    roll_s2c_calls(ctx, ctx.generate('MC_RollCall', 'MC_RollCall_gen.cfg' if q else 'MC_RollCall_gen_wide.cfg'))
     if not q:
         roll_s2c_calls(ctx, ctx.generate('MC_RollCall', 'MC_RollCall_gen_empty.cfg'))
     hists = ctx.generate('MC_Roll', 'MC_Roll_gen3.cfg' if q else 'MC_Roll_gen4.cfg')
     roll_s2c_sessions(ctx, ctx.rng.sample(hists, 600) if q and len(hists) > 600 else hists)
     roll_s2c_sessions(ctx, _simulate(ctx, 'MC_Roll', 'MC_Roll_gen.cfg', 25 if q else 800, 7, ctx.seed + 1))
-    roll_c2s(ctx, 500 if q else 8000)
+    # vacuity: the replayed histories exercise every action of the caller's state machine in every flavour
+    seen = ctx.extra.pop('_session_steps_seen')
+    want = {('load', kp, d, True) for kp in (True, False) for d in (0, 1, 2)} | {('load', True, -1, False), ('trunc', True), ('trunc', False)}
+    if want - seen:
+        raise Machinery('vacuous: the generated sessions never take %s' % sorted(want - seen))
+    roll_c2s(ctx, 400 if q else 8000)
 
 
 ASSUMPTIONS = [
